@@ -106,3 +106,5 @@ def run(repo, chk):
            f"(build() hands out the live table of a root accumulator)" + (f": {leaks}" if leaks else ""))
     from .shared import build_precedence_obligations
     build_precedence_obligations(repo, chk, "R03.2", "context values come from the matched outer activation, not from a same-named variable deeper down")
+    from .shared import fork_obligations
+    fork_obligations(repo, chk, "R03.2", "each way the path matches keeps its own focus captures")
